@@ -32,6 +32,14 @@ pub fn knobs_for(profile: &str) -> Knobs {
             k.wrap_pct = 20;
             k.err_pct = 8;
             k.max_depth = 3;
+            k.chain_pct = 25;
+        }
+        "c14" => {
+            k.coll_bias = true;
+            k.wrap_pct = 5;
+            k.err_pct = 3;
+            k.max_depth = 3;
+            k.max_list = 5;
         }
         "c11" => {
             k.clash_names = true;
@@ -90,6 +98,12 @@ pub fn one_case(id: usize, rng: &mut Rng, profile: &str, depth: usize) -> Option
         ("c06", _) => T::Bool,
         ("c10", 0..=3) => T::Bool,
         ("c10", _) => T::List(Box::new(T::Int)),
+        ("c14", 0 | 1) => T::List(Box::new(T::Int)),
+        ("c14", 2) => T::List(Box::new(T::Str)),
+        ("c14", 3) => T::Str,
+        ("c14", 4) => T::Int,
+        ("c14", 5) => T::Map(Box::new(T::Str), Box::new(T::Int)),
+        ("c14", _) => T::Bool,
         (_, 0 | 1) => T::Bool,
         (_, 2 | 3) => T::Int,
         (_, 4) => T::Str,
@@ -120,10 +134,143 @@ pub fn case_for(id: usize, src: &str, vars: &[(String, Value)]) -> Option<J> {
     }
 }
 
+/// Directed cases of a profile: small complete tables of the situations random generation reaches too rarely
+/// (aliased operands holding NaN, chained macros sharing a variable, shared / temporary operands of +,
+/// map keys that are also function names).
+pub fn directed(profile: &str) -> Vec<(String, Vec<(String, Value)>)> {
+    use cel_interpreter::objects::{Key, Map};
+    use std::collections::HashMap;
+    use std::sync::Arc;
+    let s = |x: &str| Value::String(Arc::new(x.to_string()));
+    let list = |v: Vec<Value>| Value::List(Arc::new(v));
+    let map1 = |k: &str, v: Value| {
+        let mut m = HashMap::new();
+        m.insert(Key::String(Arc::new(k.to_string())), v);
+        Value::Map(Map { map: Arc::new(m) })
+    };
+    let mut out = vec![];
+    match profile {
+        "c03" | "c09x" => {
+            // equality / membership on aliases of one value (v, w share storage; u is rebuilt)
+            let mk: Vec<Box<dyn Fn() -> Value>> = vec![
+                Box::new(|| Value::Float(f64::NAN)),
+                Box::new(move || list(vec![Value::Float(f64::NAN)])),
+                Box::new(move || list(vec![Value::Int(1), Value::Float(f64::NAN)])),
+                Box::new(move || list(vec![list(vec![Value::Float(f64::NAN)])])),
+                Box::new(move || map1("a", Value::Float(f64::NAN))),
+                Box::new(move || list(vec![map1("a", list(vec![Value::Float(f64::NAN)]))])),
+                Box::new(move || list(vec![Value::Float(1.5), Value::Int(2)])),
+                Box::new(move || map1("a", list(vec![Value::Int(1)]))),
+                Box::new(move || list(vec![])),
+                Box::new(move || s("é")),
+            ];
+            let srcs = ["v == v", "v != v", "v == w", "w != v", "v == u", "v in [v]", "v in [w]", "[v].contains(v)", "[v] == [v]", "[v] == [w]", "[v, v] != [v, w]",
+                        "[v].all(e, e == e)", "[v].exists(e, e == v)", "[v, w].map(e, e == v)", "{'k': v} == {'k': v}", "{'k': v} == {'k': w}", "[[v]].all(e, e == e)",
+                        "[v].filter(e, e in [e])", "v == v ? 1 : 2", "!(v == v) || v != v"];
+            for m in mk.iter() {
+                let v = m();
+                let vars = vec![("v".to_string(), v.clone()), ("w".to_string(), v.clone()), ("u".to_string(), m())];
+                for src in srcs.iter() {
+                    out.push((src.to_string(), vars.clone()));
+                }
+            }
+            // map literals: key_1, value_1, key_2, value_2 ... in order, the first error aborts
+            for src in ["{1: 1 / 0, 9223372036854775807 + 1: 2}", "{t(1, 1): t(2, 2), t(3, 3): t(4, 4)}", "{1: nope, 5 % 0: 2}", "{1 / 0: nope}", "{t(1, 'a'): 1 / 0, fail(2): 3}",
+                        "{[1]: 1 / 0}", "{1: 2, [1]: 1 / 0}", "{1: t(1, 2), 1.5: nope}", "[t(1, 1), 1 / 0, nope]", "[nope, 1 / 0]", "{1: 2, 1: 1 / 0}"] {
+                out.push((src.to_string(), vec![]));
+            }
+        }
+        "c10" => {
+            // chains of macros sharing the variable name: the inner macro completes before the outer one starts
+            let preds = ["t(1, x) > 0", "10 / x > 0", "t(1, x) != 2", "x > 0 && t(1, x) > 0", "tb(1)", "x != nope"];
+            let bodies = ["t(2, x)", "x + nope", "10 / x", "t(2, x) * 2", "x"];
+            let lists = ["[1, 0]", "[0, 1]", "[1, 2, 3]", "vl", "[2, 0, 2]"];
+            let vars = env0(&[3, 0, 1]);
+            for l in lists.iter() {
+                for p in preds.iter() {
+                    for b in bodies.iter() {
+                        out.push((format!("{}.filter(x, {}).map(x, {})", l, p, b), vars.clone()));
+                        out.push((format!("{}.map(x, {}).filter(x, {})", l, b, p), vars.clone()));
+                    }
+                    out.push((format!("{}.filter(x, {}).all(x, t(3, x) > 0)", l, p), vars.clone()));
+                    out.push((format!("{}.filter(x, {}).exists(x, t(3, x) > 1)", l, p), vars.clone()));
+                    out.push((format!("{}.filter(x, {}).exists_one(x, t(3, x) > 0)", l, p), vars.clone()));
+                    out.push((format!("{}.filter(x, {}).filter(x, t(3, x) > 0)", l, p), vars.clone()));
+                    out.push((format!("{}.filter(y, {}).map(x, t(2, x))", l, p.replace('x', "y")), vars.clone()));
+                    out.push((format!("{}.map(x, {}, t(2, x)).map(x, t(3, x))", l, p), vars.clone()));
+                    out.push((format!("[{}, [5]].map(y, y.filter(x, {}).map(x, t(2, x)))", l, p), vars.clone()));
+                }
+                for b in bodies.iter() {
+                    out.push((format!("{}.map(x, {}).map(x, t(3, x))", l, b), vars.clone()));
+                    out.push((format!("{}.map(x, x > 0, {}).all(x, t(3, x) > 0)", l, b), vars.clone()));
+                    out.push((format!("{}.map(x, t(1, x) > 1, {})", l, b), vars.clone()));
+                    out.push((format!("{}.map(x, x != 0, {})", l, b), vars.clone()));
+                }
+            }
+        }
+        "c14" => {
+            // + on lists / strings with every mixture of shared (context variable) and temporary operands
+            let ls: Vec<Value> = vec![list(vec![]), list(vec![Value::Int(1)]), list(vec![Value::Int(1), Value::Int(2)]), list(vec![Value::Int(1), Value::Int(2), Value::Int(3)]),
+                                      list(vec![s("a"), s("b")])];
+            let lits = ["[]", "[7]", "[7, 8]", "[3, 4, 5]", "[6, 7, 8, 9]"];
+            for a in ls.iter() {
+                for b in ls.iter() {
+                    let vars = vec![("a".to_string(), a.clone()), ("b".to_string(), b.clone())];
+                    for src in ["a + b", "a + a", "(a + b) + a", "a + (b + a)", "a + b + b", "size(a + b)", "(a + b)[0]", "(a + b)[size(a)]", "a + b == a + b", "(a + b) + a == a + (b + a)",
+                                "a + b.map(x, x)", "a.map(x, x) + b", "a.filter(x, true) + b.filter(x, true)", "[a + b, a, b]"] {
+                        out.push((src.to_string(), vars.clone()));
+                    }
+                }
+                for l in lits.iter() {
+                    let vars = vec![("a".to_string(), a.clone())];
+                    for src in [format!("a + {}", l), format!("{} + a", l), format!("a + {} + a", l), format!("{} + a + {}", l, l), format!("a + ({} + {})", l, l), format!("(a + {}) + {}", l, l),
+                                format!("size(a + {})", l), format!("(a + {})[0]", l), format!("(a + {})[size(a)]", l), format!("({} + a)[size({})]", l, l)] {
+                        out.push((src, vars.clone()));
+                    }
+                }
+            }
+            let ss = ["", "a", "ab", "é🐱"];
+            for a in ss.iter() {
+                for l in ["''", "'xyz'", "'ß'"] {
+                    let vars = vec![("a".to_string(), s(a))];
+                    for src in [format!("a + {}", l), format!("{} + a", l), format!("a + {} + a", l), format!("size(a + {})", l)] {
+                        out.push((src, vars.clone()));
+                    }
+                }
+            }
+            // map keys that are also names of registered functions: a key wins over a function in every query form
+            for key in ["size", "max", "h1", "string", "a", "k1", "contains", "has"] {
+                for present in [true, false] {
+                    let m = if present { map1(key, Value::Int(10)) } else { map1("other", Value::Int(10)) };
+                    let vars = vec![("m".to_string(), m), ("k".to_string(), s(key))];
+                    for src in [format!("m.{}", key), format!("has(m.{})", key), format!("'{}' in m", key), format!("m['{}']", key), format!("m.contains('{}')", key), "k in m".to_string(), "m[k]".to_string(),
+                                format!("{{'{}': 10}}.{}", key, key), format!("has({{'{}': 10}}.{})", key, key), format!("m.{} == m['{}']", key, key), format!("[m].map(e, e.{})", key),
+                                format!("[m].all(e, has(e.{}))", key)] {
+                        out.push((src, vars.clone()));
+                    }
+                }
+            }
+        }
+        _ => {}
+    }
+    out
+}
+
 pub fn drive(profile: &str, seed: u64, n: usize, depth: usize, out: &mut dyn Write) -> Stats {
     let mut rng = Rng::new(seed);
     let mut st = Stats { cases: 0, compile_fail: 0, panics: 0 };
     let mut id = 0;
+    for (src, vars) in directed(profile) {
+        id += 1;
+        match case_for(id, &src, &vars) {
+            Some(c) => {
+                writeln!(out, "{}", c).unwrap();
+                st.cases += 1;
+            }
+            None => st.compile_fail += 1,
+        }
+    }
+    let n = n + st.cases;
     while st.cases < n {
         id += 1;
         let mut r = rng.fork();
@@ -276,7 +423,9 @@ pub fn c20_table(seed: u64, thorough: bool, out: &mut dyn Write) -> Stats {
         ("h4", vec!["ki", "ks", "kb", "kl"]), ("h9", vec!["ki", "ku", "kd", "ks", "ky", "kb", "kl", "kn", "km"]), ("m0", vec!["ks"]), ("m1", vec!["ks", "ki"]),
         ("m2", vec!["ks", "ki", "kb"]), ("m3", vec!["kl", "ki", "kb", "kn"]), ("va", vec!["ki", "ks"]), ("idf", vec!["ki"]), ("fi", vec!["ki"]), ("fu", vec!["ku"]),
         ("fd", vec!["kd"]), ("fs", vec!["ks"]), ("fy", vec!["ky"]), ("fb", vec!["kb"]), ("fl", vec!["kl"]), ("fis", vec!["ki", "ks"]), ("msi", vec!["ks", "ki"]),
-        ("c0", vec![]), ("c2", vec!["ks", "ki"]), ("mo", vec!["kn", "ki", "ks"]),
+        ("c0", vec![]), ("c2", vec!["ks", "ki"]), ("mo", vec!["kn", "ki", "ks"]), ("rs", vec!["ki", "ks"]), ("mw", vec!["ks", "ki", "kb"]),
+        // the same two with the arguments a method-style call needs (receiver first)
+        ("rs", vec!["ks", "ki"]), ("mw", vec!["ki", "ks", "kb"]),
     ];
     let mut st = Stats { cases: 0, compile_fail: 0, panics: 0 };
     let mut id = 0usize;
